@@ -85,7 +85,7 @@ func (x *Exec) explore(entry *ssa.Function, initial []workItem) {
 		x.known = x.known[:0]
 		x.mapOrderNondet = false
 		x.events = x.events[:0]
-		x.files, x.fileSeq, x.waitResult, x.pipeOutput, x.pipeWriteFails = nil, 0, nil, nil, false
+		x.files, x.fs, x.fileSeq, x.waitResult, x.pipeOutput, x.pipeWriteFails = nil, nil, 0, nil, nil, false
 		x.rangeSite, x.rangeCount = -1, 0
 		x.frames = x.frames[:0]
 		x.owned = true
